@@ -1034,9 +1034,18 @@ fn instantiate(rng: &mut Rng, p: &str, alpha: &[char]) -> String {
     for t in tokenise(&pc) {
         match t {
             Tok::Lit(c) => {
-                if rng.chance(1, 12) {
-                    // case / near variants
-                    let alts: Vec<char> = c.to_uppercase().chain(c.to_lowercase()).collect();
+                if rng.chance(1, 6) {
+                    // case variants and the non-ASCII members of the simple-case-folding class
+                    let mut alts: Vec<char> = c.to_uppercase().chain(c.to_lowercase()).collect();
+                    match c {
+                        'k' | 'K' => alts.push('\u{212A}'),
+                        's' | 'S' => alts.push('\u{17F}'),
+                        '\u{DF}' => alts.push('\u{1E9E}'),
+                        '\u{3c3}' | '\u{3c2}' | '\u{3a3}' => alts.extend(['\u{3c3}', '\u{3c2}', '\u{3a3}']),
+                        '\u{212A}' => alts.extend(['k', 'K']),
+                        '\u{17F}' => alts.extend(['s', 'S']),
+                        _ => {}
+                    }
                     s.push(*rng.pick(&alts));
                 } else {
                     s.push(c)
